@@ -310,7 +310,7 @@ def ev_mcall(e, env, ctx):
         raise Outside(f"encoding_size() of a {r.kind}")
     if name == "max_encoding_size" and not args and r.kind == "addr":
         return sub_size(ctx, "qbase/src/net.rs", "SocketAddr", "max_encoding_size", r)
-    if name == "len" and not args and r.kind in ("bytes", "ranges"):
+    if name == "len" and not args and r.kind in ("bytes", "ranges", "cid"):
         return V("nat", f"{r.term}.length")
     if name in ("len", "remaining") and not args and r.kind == "data":
         return V("nat", f"{r.term}.length")
@@ -330,6 +330,10 @@ def ev_mcall(e, env, ctx):
         return V("bytes", f"beBytes {r.w} {r.term}.ip")
     if name == "frame_type" and r.kind in ("struct", "enumself") and getattr(r, "is_self", False):
         return V("ftype", ctx.spec["ftype"])
+    if name == "get_type" and r.kind == "struct" and getattr(r, "is_self", False) and "ptype" in ctx.spec:
+        return V("ptype", ctx.spec["ptype"])
+    if name == "size" and not args and r.kind == "struct" and hasattr(ctx, "size_hook"):
+        return ctx.size_hook(r)
     if name in ("unwrap", "expect") and r.kind == "res":
         ctx.pre.append(f"{r.val.term} < 2^62 (else `{name}` panics)")
         return r.val
@@ -409,6 +413,13 @@ def put(e, env, ctx, selfname):
     _, recv, name, args = e
     if recv != ("path", [selfname]):
         raise Outside("put_* on something other than the buffer")
+    if name == "put_packet_type" and len(args) == 1:
+        a = ev(args[0], env, ctx)
+        if a.kind != "ptype":
+            raise Outside("put_packet_type of a non packet type")
+        return [f"encPType {par(a.term)}"]
+    if name == "put_specific" and len(args) == 1 and hasattr(ctx, "specific_hook"):
+        return ctx.specific_hook(ev(args[0], env, ctx))
     if name == "put_frame_type" and len(args) == 1:
         a = ev(args[0], env, ctx)
         if a.kind != "ftype":
@@ -427,6 +438,8 @@ def put(e, env, ctx, selfname):
         return [a.term]
     if name == "put_connection_id" and a.kind == "cid":
         return [f"[UInt8.ofNat {a.term}.length]", a.term]
+    if name == "put_u32" and a.kind == "u32":
+        return [f"beBytes 4 {a.term}"]
     if name == "put_u16" and a.kind == "port":
         return [f"beBytes 2 {a.term}.port"]
     if name in ("put_u32", "put_u128") and a.kind == "ipnum" and a.w == {"put_u32": 4, "put_u128": 16}[name]:
@@ -458,6 +471,12 @@ def run(block, env, ctx, selfname):
                 env2[pat[1][0][1]], env2[pat[1][1][1]] = V("varint", "p.1"), V("varint", "p.2")
                 inner = run(s[3], env2, ctx, selfname)
                 items.append(f"({xs.term}.flatMap fun p => {cat(inner)})")
+                continue
+            if xs.kind == "u32list" and pat[0] == "pbind":
+                env2 = dict(env)
+                env2[pat[1]] = V("u32", "v")
+                inner = run(s[3], env2, ctx, selfname)
+                items.append(f"({xs.term}.flatMap fun v => {cat(inner)})")
                 continue
             raise Outside("for loop outside the fragment")
         if s[0] != "expr":
